@@ -14,6 +14,7 @@ package main
 //   abort nodes=<i,j,…>          the local abort command on each listed node (resets members stuck in a proposal phase)
 //   dump
 // sched = '/'-separated: delay=<ms> dup=<pct> slow=<i>:<ms> hold=<ms rel. boundary> holdx=<i>:<ms> down=<i> kick=<ms rel. boundary>
+//         cut=<a>><b> (deal bundles sent over the link a→b are lost)  forge=<a>><b> (a copy of dealer a's deal with a broken signature reaches b first)
 
 import (
 	"bufio"
@@ -65,6 +66,11 @@ type drSched struct {
 	down     map[int]bool
 	kick     *int // kickoff of the execution is placed at boundary+kick ms
 	boundary time.Time
+	// link faults of the deal phase (C06: the echo broadcast must make up for them)
+	cut      map[[2]int]bool   // a>b: every deal bundle sent over the link a→b is lost (the call returns an error)
+	forge    map[[2]int]bool   // a>b: the first time dealer a's deal bundle travels to b, a copy with one signature bit flipped arrives first
+	forgeIdx map[int]uint32    // dealer index of node a in the running epoch
+	forged   map[[2]int]bool
 }
 
 type drNode struct {
@@ -160,7 +166,11 @@ func (c *drClient) Packet(ctx context.Context, p net.Peer, packet *pdkg.GossipPa
 			_, _ = t.proc.Packet(context.Background(), cp)
 		}()
 	}
-	return t.proc.Packet(ctx, packet)
+	// as over gRPC: the handler runs under a context that ends when the handler returns
+	rctx, cancel := context.WithCancel(context.Background())
+	defer cancel()
+	_ = ctx
+	return t.proc.Packet(rctx, packet)
 }
 
 func (c *drClient) BroadcastDKG(ctx context.Context, p net.Peer, in *pdkg.DKGPacket, _ ...net.CallOption) (*pdkg.EmptyDKGResponse, error) {
@@ -180,6 +190,36 @@ func (c *drClient) BroadcastDKG(ctx context.Context, p net.Peer, in *pdkg.DKGPac
 	if s.down[t.i] || s.down[c.from] {
 		c.n.count("bundle-dropped")
 		return &pdkg.EmptyDKGResponse{}, nil
+	}
+	if deal := in.GetDkg().GetDeal(); deal != nil {
+		if s.cut[[2]int{c.from, t.i}] {
+			c.n.count("bundle-cut")
+			return nil, errors.New("connection refused")
+		}
+		c.n.smu.Lock()
+		var forgeNow bool
+		for ab := range s.forge {
+			if ab[1] == t.i && !s.forged[ab] {
+				if ix, ok := s.forgeIdx[ab[0]]; ok && ix == deal.GetDealerIndex() {
+					s.forged[ab] = true
+					forgeNow = true
+				}
+			}
+		}
+		c.n.smu.Unlock()
+		if forgeNow {
+			bad := proto.Clone(in).(*pdkg.DKGPacket)
+			sig := append([]byte{}, bad.GetDkg().GetDeal().GetSignature()...)
+			sig[len(sig)-1] ^= 1
+			bad.GetDkg().GetDeal().Signature = sig
+			c.n.count("bundle-forged")
+			fctx, fcancel := context.WithCancel(context.Background())
+			_, ferr := t.proc.BroadcastDKG(fctx, bad)
+			fcancel()
+			if ferr != nil {
+				c.n.count("bundle-forged-refused")
+			}
+		}
 	}
 	wait := time.Duration(0)
 	if s.delay > 0 {
@@ -259,7 +299,8 @@ func parseIdx(s string) []int {
 }
 
 func parseSched(spec string) *drSched {
-	s := &drSched{slow: map[int]int{}, holdx: map[int]int{}, down: map[int]bool{}}
+	s := &drSched{slow: map[int]int{}, holdx: map[int]int{}, down: map[int]bool{}, cut: map[[2]int]bool{}, forge: map[[2]int]bool{},
+		forgeIdx: map[int]uint32{}, forged: map[[2]int]bool{}}
 	if spec == "" || spec == "-" {
 		return s
 	}
@@ -284,6 +325,12 @@ func parseSched(spec string) *drSched {
 		case "kick":
 			x := atoi(v)
 			s.kick = &x
+		case "cut":
+			a, b, _ := strings.Cut(v, ">")
+			s.cut[[2]int{atoi(a), atoi(b)}] = true
+		case "forge":
+			a, b, _ := strings.Cut(v, ">")
+			s.forge[[2]int{atoi(a), atoi(b)}] = true
 		default:
 			panic("bad sched token " + tok)
 		}
@@ -518,7 +565,10 @@ func (c *drNet) parts(idx []int) []*pdkg.Participant {
 
 func (c *drNet) cmd(i int, cm *pdkg.DKGCommand) string {
 	cm.Metadata = &pdkg.CommandMetadata{BeaconID: c.bid}
-	_, err := c.nodes[i].proc.Command(context.Background(), cm)
+	// as over the control port: the request context ends when the command returns
+	rctx, cancel := context.WithCancel(context.Background())
+	_, err := c.nodes[i].proc.Command(rctx, cm)
+	cancel()
 	r := classifyDKGErr(err, cm.GetExecute() != nil)
 	if r == "saved-then-err:gossip-empty" {
 		// a one-node network: the state was saved, there was nobody to tell
@@ -558,6 +608,7 @@ type epochResult struct {
 	MaxDeliveryLagMs int64 `json:"max_delivery_lag_ms"`
 	MaxSchedLagMs    int64 `json:"max_sched_lag_ms"`
 	Down             []int `json:"down"`
+	LinkFaults       int   `json:"link_faults"` // one-way link cuts / forged copies asked for by the schedule
 }
 
 func (c *drNet) states(i int) (cur, fin *dkg.DBState) {
@@ -697,6 +748,19 @@ func (c *drNet) runEpoch(op string, kv map[string]string) any {
 			sched.boundary = nextBoundary(time.Now(), lead+time.Duration(absMaxHold(sched))*time.Millisecond, genesis, periodSec)
 		}
 		res.Boundary = sched.boundary.Unix()
+		// dealer indices of the running epoch (first epoch: rank of the key among the joiners; reshare: index in the old group)
+		if op == "initial" {
+			for ix, p := range util.SortedByPublicKey(c.parts(joiners)) {
+				sched.forgeIdx[c.byAddr[p.Address].i] = uint32(ix)
+			}
+		} else if _, lfin := c.states(leader); lfin != nil && lfin.FinalGroup != nil {
+			for _, gn := range lfin.FinalGroup.Nodes {
+				if nd := c.byAddr[gn.Addr]; nd != nil {
+					sched.forgeIdx[nd.i] = gn.Index
+				}
+			}
+		}
+		res.LinkFaults = len(sched.cut) + len(sched.forge)
 		c.smu.Lock()
 		c.sched = sched
 		c.smu.Unlock()
